@@ -57,7 +57,7 @@ CHECKS = {
          "Every emitted function of the corpus (as C04, plus label-stress programs: repeated/nested inlining, goto labels, loops and early returns in inlined code, long-branch repair) must use only (mnemonic, mode) pairs of the 6502, define each label once and define every reference.",
          "Trusted: Enc6502 table, harness operand splitter. Inline-function bodies are templates and are judged only where expanded."),
 }
-PENDING = {"C01", "C02"}   # built, known-findings baseline being established
+PENDING = set()
 NA_REASON = "check not built yet (work in progress; see DESIGN.md section 6)"
 m = {"version": 1,
      "setup_cmd": "cd /verif && python3 bin/setup.py",
